@@ -153,7 +153,7 @@ func c18NodeVariants(kind string, thorough bool) []dpgen.Node {
 			}
 		}
 	case "File":
-		for _, p := range []string{"\\EFI\\BOOT\\BOOTX64.EFI", "a", "\\\U0001F600\\é.efi"} {
+		for _, p := range []string{"\\EFI\\BOOT\\BOOTX64.EFI", "a", "\\\U0001F600\\é.efi", "\\EFI\\\u4e00\\grub\u0100.efi"} {
 			out = append(out, dpgen.Node{Kind: kind, Path: p})
 		}
 	case "FvFile":
@@ -392,7 +392,7 @@ func c18Run(c *hx.Ctx, tier, unit string) {
 			variants[kd] = c18NodeVariants(kd, thorough)
 		}
 		attrs := []uint32{0, 1, 0xFFFFFFFF}
-		descs := []string{"", "A", "Linux Boot Manager", "\U0001F600 boot é"}
+		descs := []string{"", "A", "Linux Boot Manager", "\U0001F600 boot é", "Arch\u3000Linux A\u0100"}
 		// sequences whose first kind is c18Kinds[k]; the empty sequence belongs to shard 0
 		var seqs [][]string
 		if k == 0 {
